@@ -17,92 +17,25 @@
   the output of `parse_ast` (string tokens below 64 K, `.blkw 0` rejected, labels are tokens of the text so positions and
   upper-cased names fit 64 bits for a source below 2^64/12 bytes, statements on strictly increasing lines), so ANY source
   text that parses and assembles, with or without debug symbols, gives a file that round-trips.
-  Not proved: `WF` of linked files. That gap is what the correspondence check covers: 2,500+ object files from assembling and linking are
-  serialized and read back by implementation and model, and both must return the original.
+  Session 5 (`binary_roundtrip_assembled_or_linked`, Lemmas/BinLink; the theorems above now live in Lemmas/C17Core): `WF` of
+  LINKED files.  `link` keeps `TOk` (Lemmas/TxtLink: table shapes, debug symbols as the condensation of a per-line vector) and
+  `BExtra` (name lengths, line blocks and source size within the field widths: `link_bExtra`; the merged line map is A's
+  blocks followed by B's re-keyed blocks, the merged source is the two sources and a line feed), both hold for every file
+  assembled from source (`source_tOk`, `source_bExtra`) and together give `WF` (`binWF_of`).  Hence the property as stated: any
+  object file produced by assembling source texts (with or without debug symbols) and linking the results in any order
+  and grouping is read back unchanged from the binary format (side condition: the sources with debug symbols, plus one byte
+  each, fit 2^64 bytes).  By correspondence only: links with an operand that has no symbol table, reader-produced files.
 -/
-import Lc3V.Lemmas.BinRoundtrip2
-import Lc3V.Lemmas.AssembledWF
-import Lc3V.Lemmas.AssembledWFDebug
-import Lc3V.Lemmas.ParserDischarge
-set_option linter.unusedSimpArgs false
+import Lc3V.Lemmas.C17Core
+import Lc3V.Lemmas.BinLink
 namespace Lc3V.C17
 open Lc3V Bin
-
-/-- the round trip, for every well-formed object file -/
-theorem roundtrip (o : ObjFile) (h : WF o) : deserialize (serialize o) = some o := deserialize_serialize o h
-
-/-- the empty object file is well-formed -/
-theorem wf_empty : WF ⟨[], none⟩ := by
-  refine ⟨trivial, ?_, ?_⟩
-  · intro b hb; cases hb
-  · intro t ht; cases ht
-
-/-- the hypotheses are satisfiable by a file with every kind of content: two blocks (one with an uninitialised word), a
-    local and an external label, a relocation entry, a line map and a source text with a non-ASCII character -/
-def sample : ObjFile :=
-  ⟨[(0x3000, [some 0x1021, none, some 0x0000]), (0x4000, [some 0xF025])],
-   some ⟨[(['A'], ⟨0x3000, 12, false⟩), (['X'], ⟨0, 40, true⟩)], [(0x3002, ['X'])],
-     some ⟨[(1, [0x3000, 0x3001, 0x3002]), (6, [0x4000])], SourceInfo.ofText ['é', '\n', 'x']⟩⟩⟩
-
-example : WF sample := by
-  refine ⟨⟨by decide, trivial⟩, ?_, ?_⟩
-  · intro b hb
-    simp only [sample, List.mem_cons, List.mem_nil_iff, or_false] at hb
-    rcases hb with rfl | rfl <;> decide
-  · intro t ht
-    simp only [sample, Option.some.injEq] at ht
-    subst ht
-    refine ⟨by decide, ?_, by decide, ?_, ?_, Or.inl (by simp)⟩
-    · intro e he
-      simp only [List.mem_cons, List.mem_nil_iff, or_false] at he
-      rcases he with rfl | rfl <;> decide
-    · intro e he
-      simp only [List.mem_cons, List.mem_nil_iff, or_false] at he
-      subst he; decide
-    · intro d hd
-      simp only [Option.some.injEq] at hd
-      subst hd
-      refine ⟨⟨by decide, trivial⟩, by decide, ?_, rfl, by decide⟩
-      intro e he
-      simp only [List.mem_cons, List.mem_nil_iff, or_false] at he
-      rcases he with rfl | rfl <;> decide
-
-/-- **every assembled file round-trips** (assembling without debug symbols): the object file `assemble` returns is well-formed,
-    hence `deserialize (serialize obj) = some obj`.  Hypotheses (guaranteed by lexer and parser for any real source): string
-    literals below 64 K, label positions and label names that fit 64 bits. -/
-theorem assembled_roundtrip (stmts : List Stmt) (obj : ObjFile) (h : assemble stmts none = .ok obj)
-    (hstr : ∀ s ∈ stmts, ∀ x, s.nucleus = .directive (.stringz x) → blen x + 1 < 65536)
-    (hlab : LabelsBounded stmts) (hfill : FillLabelsBounded stmts) :
-    WF obj ∧ deserialize (serialize obj) = some obj :=
-  ⟨assembled_wf_nodebug stmts obj h hstr hlab hfill, roundtrip obj (assembled_wf_nodebug stmts obj h hstr hlab hfill)⟩
-
-/-- **every file assembled with debug symbols round-trips** as well: the line map's blocks are strictly ascending because
-    `lookup_line` is injective (C24), within the field widths because the location counter never wraps.  Additional hypotheses
-    (all guaranteed for parser output): statements on increasing lines, every statement with a line entry at least one word
-    long, the source below 2^64 bytes. -/
-theorem assembled_debug_roundtrip (stmts : List Stmt) (src : List Char) (obj : ObjFile) (h : assemble stmts (some src) = .ok obj)
-    (hstr : ∀ s ∈ stmts, ∀ x, s.nucleus = .directive (.stringz x) → blen x + 1 < 65536)
-    (hlab : LabelsBounded stmts) (hfill : FillLabelsBounded stmts)
-    (hsized : ∀ s ∈ stmts, noLine s.nucleus = false → 1 ≤ s.nucleus.wordLen.toNat)
-    (hl : LinesFrom (SourceInfo.ofText src) (SourceInfo.ofText src).countLines 0 stmts) (hsrc : blen src < 2 ^ 64) :
-    WF obj ∧ deserialize (serialize obj) = some obj :=
-  ⟨assembled_wf_debug stmts src obj h hstr hlab hfill hsized hl hsrc,
-   roundtrip obj (assembled_wf_debug stmts src obj h hstr hlab hfill hsized hl hsrc)⟩
-
-/-- **source level**: for ANY source text (below 2^64/12 bytes) that parses and assembles — with or without debug symbols —
-    the object file is well-formed and deserializing its serialization gives it back.  All side hypotheses of
-    `assembled_roundtrip` / `assembled_debug_roundtrip` are facts about parser output (Lemmas/ParserDischarge.lean). -/
-theorem source_roundtrip (src : List Char) (stmts : List Stmt) (dbg : Bool) (obj : ObjFile) (hp : parseAst src = .ok stmts)
-    (hsrc : 12 * blen src < 2 ^ 64) (h : assemble stmts (if dbg then some src else none) = .ok obj) :
-    WF obj ∧ deserialize (serialize obj) = some obj := by
-  obtain ⟨hstr, hsized, hlab, hfill, hl⟩ := parsed_program_facts src stmts hp hsrc
-  cases dbg with
-  | false => exact assembled_roundtrip stmts obj h hstr hlab hfill
-  | true => exact assembled_debug_roundtrip stmts src obj h hstr hlab hfill hsized hl (by omega)
 
 def obligations : List Lean.Name :=
   [``roundtrip, ``source_roundtrip, ``Lc3V.parsed_program_facts, ``Lc3V.upperC_length, ``assembled_roundtrip, ``assembled_debug_roundtrip, ``Lc3V.assembled_wf_debug, ``Lc3V.assembled_wf_nodebug, ``wf_empty, ``Lc3V.Bin.deserialize_serialize, ``Lc3V.Bin.fromUtf8_utf8, ``Lc3V.Bin.unle_le, ``Lc3V.Bin.chunks3_words,
    ``Lc3V.Bin.chunks2_words, ``Lc3V.Bin.read_block, ``Lc3V.Bin.read_label, ``Lc3V.Bin.read_lineBlock, ``Lc3V.Bin.read_src,
-   ``Lc3V.Bin.read_rel, ``Lc3V.Bin.readChunks_items, ``Lc3V.Bin.fromBlocks_self, ``Lc3V.insAll_nil]
+   ``Lc3V.Bin.read_rel, ``Lc3V.Bin.readChunks_items, ``Lc3V.Bin.fromBlocks_self, ``Lc3V.insAll_nil,
+   ``Lc3V.binWF_of, ``Lc3V.link_bExtra, ``Lc3V.source_bExtra, ``Lc3V.source_tOk, ``Lc3V.link_tOk, ``Lc3V.Txt.DOk.link,
+   ``Lc3V.C20.binary_roundtrip_assembled_or_linked]
 
 end Lc3V.C17
